@@ -17,6 +17,7 @@
 package config
 
 import (
+	"errors"
 	"gopkg.in/yaml.v2"
 )
 
@@ -83,6 +84,9 @@ func NewMapTableSchemaStore() (*MapTableSchemaStore, error) {
 	return &MapTableSchemaStore{schemas: make(map[string]*tableSchema)}, nil
 }
 
+// ErrEmptySchemaItem is returned for an empty item in the "schemas" or "encrypted" list of the encryptor config
+var ErrEmptySchemaItem = errors.New("empty item in the list of schemas or encrypted columns")
+
 // MapTableSchemaStoreFromConfig parse config and return MapTableSchemaStore with data from config
 func MapTableSchemaStoreFromConfig(config []byte, useMySQL bool) (*MapTableSchemaStore, error) {
 	storeConfig := &storeConfig{}
@@ -100,7 +104,14 @@ func MapTableSchemaStoreFromConfig(config []byte, useMySQL bool) (*MapTableSchem
 	var mask SettingMask
 	mapSchemas := make(map[string]*tableSchema, len(storeConfig.Schemas))
 	for _, schema := range storeConfig.Schemas {
+		// "- ~" / an empty list item in YAML is decoded as a nil pointer
+		if schema == nil {
+			return nil, ErrEmptySchemaItem
+		}
 		for _, setting := range schema.EncryptionColumnSettings {
+			if setting == nil {
+				return nil, ErrEmptySchemaItem
+			}
 			setting.applyDefaults(*storeConfig.Defaults)
 			if err := setting.Init(useMySQL); err != nil {
 				return nil, err
